@@ -337,4 +337,4 @@ PROPS["C05"]["facts"] = dict(modules=["Sth.Obligations.FactsC05"], theorems=["St
 PROPS["C13"]["facts"] = dict(modules=["Sth.Obligations.FactsC05"], theorems=["Sth.Obligations.C05_mutators_atomic"])
 PROPS["C12"]["facts"] = dict(modules=["Sth.Obligations.FactsC12"], theorems=["Sth.Obligations.C12_flush_paths", "Sth.Obligations.C12_register_atomic"])
 PROPS["C14"]["facts"] = dict(modules=["Sth.Obligations.FactsC14"], theorems=["Sth.Obligations.C14_methods_atomic"])
-PROPS["C17"]["facts"] = dict(modules=["Sth.Obligations.FactsC17"], theorems=["Sth.Obligations.C17_done_channels"])
+PROPS["C17"]["facts"] = dict(modules=["Sth.Obligations.FactsC17"], theorems=["Sth.Obligations.C17_done_channels", "Sth.Obligations.C17_handshake_locals_not_shadowed"])
